@@ -1,6 +1,7 @@
 import Swat4.Lemmas.GS1
 import Swat4.Lemmas.Details
 import Swat4.Lemmas.DetailsComplete
+import Swat4.Lemmas.DetailsEncode
 import Swat4.Gen.Facts
 /-!
 # C07 — No probe response can crash or hang the prober
@@ -312,6 +313,20 @@ theorem detailsOf_complete (r : Response) (d : Details)
     (ha : DetailsSpec.accepted d = true) : detailsOf r = .ok d :=
   detailsOf_complete_of details_facts_ok details_cover_ok r d hi hp ho ha
 
+/-- the parameter names of each generated schema are pairwise different (so a map can carry a value for every field) -/
+theorem details_params_nodup : DetailsProbe.ParamsNodup := by
+  constructor <;> decide
+
+/-- **every accepted value is reached (`detailsOf_complete` on the encoder).**  `encodeDetails d` writes `d` as a
+decoded response: every struct as the map from the parameter names of its schema to the values spelled
+canonically (ints as plain decimals `FilterSpec.renderInt`, bools `1`/`0`, strings as they are; objectives as
+their name/status pair).  For every `d` of the Go types' shape (`Shaped`: per field a value of the field's kind,
+ints within int64, the unnamed `Version` field zero) that satisfies `DetailsSpec.accepted`, the stage returns
+exactly `d` on that response.  So no accepted value is unreachable, and the stage reads every field back. -/
+theorem detailsOf_encode (d : Details) (hs : Shaped d) (ha : DetailsSpec.accepted d = true) :
+    detailsOf (encodeDetails d) = .ok d :=
+  detailsOf_encode_of details_facts_ok details_cover_ok details_params_nodup d hs ha
+
 /-- **the details stage, characterised.**  It returns `d` exactly when `NewDetailsFromParams` yields `d`
 (three `params.Unmarshal`s, `unmarshal_iff_reads`) and `d` satisfies `DetailsSpec.accepted`: on the values
 that parse, `Details.Validate` *is* the specification (soundness `accepted_sound` and completeness). -/
@@ -378,6 +393,21 @@ example :
     DetailsSpec.accepted d = true := by
   refine ⟨(unmarshal_iff_reads _ _ _).mp (by decide), .cons ((unmarshal_iff_reads _ _ _).mp (by decide)) .nil,
     .cons ((unmarshal_iff_reads _ _ _).mp (by decide)) .nil, by decide⟩
+
+/-- the hypotheses of `detailsOf_encode` hold for a value with negative and extreme ints, both bool values and a
+non-ASCII name (checked through the executable twin `shapedB`) -/
+example :
+    let d : Details := ⟨[.str (a "Swat4 Server"), .int 65535, .str (a "SWAT 4"), .str (a "1.1"), .str (a "VIP Escort"), .int 0, .int 16,
+      .str (a "Fairfax Residence"), .bool true, .bool false, .int 0, .int 5, .int (-9223372036854775808), .int 0, .int (-7), .int 9223372036854775807,
+      .int 0, .int 0, .int 0, .int 0, .str (a "-0/+5"), .str [], .str []],
+     [[.str [0xc3, 0xa9], .int (-3), .int 0, .int 2, .bool true, .int 4, .int 0, .int 0, .int 0, .int 0, .int 0, .int 0, .int 0,
+       .int 0, .int 0, .int 0, .int 0, .int 0, .bool false, .int 0, .int 0, .bool true]],
+     [[.str (a "Rescue_All_Hostages"), .int 1]]⟩
+    Shaped d ∧ DetailsSpec.accepted d = true ∧ detailsOf (encodeDetails d) = .ok d := by
+  intro d
+  have hs : Shaped d := shaped_of_B (by decide)
+  have ha : DetailsSpec.accepted d = true := by decide
+  exact ⟨hs, ha, detailsOf_encode d hs ha⟩
 
 /-- the seeded crash witness is an ordinary validation failure -/
 example : detailsOf (good "1/2/3" "2") = .errValidate := by decide
